@@ -93,6 +93,21 @@ type rtCtx struct {
 	scratch string
 	n       int
 	snapDir string
+	g2, g3  int // second- / third-generation round trips made
+	g2Every int // every n-th L2 round trip gets a second generation (0: none); decorated ones always do
+	g2Third int // every n-th second generation goes on to a third one
+}
+
+// maybeSecondGen: second-generation round trip of a state directory whose first-generation round trip was equal.
+func (x *rtCtx) maybeSecondGen(cp string, lp Proj, equal bool, o ProjOpts, rec tr.M, always bool) {
+	if cp == "" || !equal || x.g2Every <= 0 {
+		return
+	}
+	if !always && x.n%x.g2Every != 0 {
+		return
+	}
+	variant := Gen2Variants[x.g2%len(Gen2Variants)]
+	x.secondGen(cp, lp, o, rec, variant, x.g2Third > 0 && x.g2%x.g2Third == 0)
 }
 
 // roundTrip saves the live cache, re-opens a copy of its directory and compares the projections.
@@ -235,7 +250,9 @@ func runHistory(x *rtCtx, h l2.History, hidx int, scratch, shared string, seed i
 					x.w.Emit(tr.M{"ev": "harness_panic", "h": hidx, "k": k, "msg": fmt.Sprint(r)})
 				}
 			}()
-			lp, cp, _ = x.roundTrip(world.H.Cache(), world.StateDir, opts, rec)
+			var eq bool
+			lp, cp, eq = x.roundTrip(world.H.Cache(), world.StateDir, opts, rec)
+			x.maybeSecondGen(cp, lp, eq, opts, rec, false)
 		}()
 		select {
 		case <-done:
@@ -286,7 +303,8 @@ func (x *rtCtx) decorate(snap string, hidx, k int, policy string, base ProjOpts,
 		applied, panics := Decorate(b, seed*131+int64(hidx)*17+int64(k), round)
 		rec := tr.M{"h": hidx, "k": k, "op": fmt.Sprintf("decor%d", round), "origin": "decor", "policy": policy, "applied": applied,
 			"oppanic": false, "operr": false, "api_panics": panics}
-		lp, cp, _ := x.roundTrip(b, dd, o, rec)
+		lp, cp, eq := x.roundTrip(b, dd, o, rec)
+		x.maybeSecondGen(cp, lp, eq, o, rec, true)
 		if cp != "" && round == 2 {
 			x.keepSnapshot(cp, fmt.Sprintf("h%d-k%d-decor", hidx, k), tr.M{"h": hidx, "k": k, "origin": "decor", "policy": policy,
 				"hash": lp.Hash(), "feat": lp.Features()})
@@ -309,6 +327,8 @@ func RunMain(args []string) error {
 	snapout := fs.String("snapout", "", "keep snapshots for the crash enumeration here")
 	seed := fs.Int64("seed", 1, "seed of the decorations")
 	decors := fs.Int("decors", 2, "decorated snapshots per history")
+	gen2 := fs.Int("gen2", 1, "second-generation round trip for every n-th L2 round trip (0: none) and every decorated one")
+	gen3 := fs.Int("gen3", 5, "every n-th second generation goes on to a third one (0: none)")
 	if err := fs.Parse(args); err != nil {
 		return err
 	}
@@ -330,7 +350,7 @@ func RunMain(args []string) error {
 		return err
 	}
 	defer w.Close()
-	x := &rtCtx{w: w, snapDir: *snapout}
+	x := &rtCtx{w: w, snapDir: *snapout, g2Every: *gen2, g2Third: *gen3}
 	hangs, n := 0, 0
 	for i, h := range hs {
 		if i < *from || (*to >= 0 && i >= *to) {
@@ -343,6 +363,6 @@ func RunMain(args []string) error {
 			}
 		}
 	}
-	fmt.Printf("persistdrv run: %d histories, %d round trips, %d trace lines\n", n, x.n, w.N)
+	fmt.Printf("persistdrv run: %d histories, %d round trips, %d second generations, %d trace lines\n", n, x.n, x.g2, w.N)
 	return nil
 }
